@@ -614,6 +614,7 @@ def run(ctx):
     bary_inherit(ctx)
     bary_family(ctx)
     compat(ctx)
+    compat_use(ctx)
     idxspace.index_spaces(ctx)
     dualasm.dual1_assembly(ctx)
     baryvert.barycentric_vertices(ctx)
@@ -630,6 +631,39 @@ def run(ctx):
     from .. import spaces as _spc
 
     _spc.paired_defaults(ctx)  # RWG / SNC and BC / RBC are built from the same options under the same keywords
+
+
+REPRESENTATION_DEPENDENT = {"grid", "support", "support_elements", "number_of_support_elements", "local2global", "global2local", "local_multipliers", "normal_multipliers",
+                            "shapeset", "numba_evaluate", "numba_surface_gradient", "numba_surface_curl", "localised_space", "color_map", "collocation_points", "number_of_shape_functions",
+                            "map_to_localised_space", "map_to_full_grid", "is_barycentric", "evaluate", "surface_gradient", "mass_matrix", "inverse_mass_matrix", "get_elements_by_color"}
+
+
+def compat_use(ctx):
+    """After `a, b = return_compatible_representation(x, y)` an assembler reads the tables of a and b only: the originals
+    x, y may live on the coarse grid while a, b live on the barycentric one, and a test or table that mixes the two
+    (`x.grid != b.grid`) compares objects of different representations.  Dof counts and identifiers are the same in
+    both representations and may be read from either."""
+    r = ctx.rule("COMPAT-USE", "after return_compatible_representation the assemblers and the grid-function constructor read grid, support, dof-map and evaluator tables from the converted spaces only, never from the originals", 4)
+    sites = [("bempp_cl/core/sparse_assembler.py", "SparseAssembler.assemble"), ("bempp_cl/core/singular_assembler.py", "SingularAssembler.assemble"),
+             ("bempp_cl/api/fmm/fmm_assembler.py", "FmmAssembler.assemble"), ("bempp_cl/api/assembly/grid_function.py", "GridFunction.__init__")]
+    for rel, qn in sites:
+        fn = ctx.repo.mod(rel).fn(qn)
+        conv = [st for st in ast.walk(fn) if isinstance(st, ast.Assign) and isinstance(st.value, ast.Call) and unparse(st.value.func).split(".")[-1] == "return_compatible_representation"]
+        if len(conv) != 1:
+            raise AnalysisError("%s: expected one call of return_compatible_representation" % qn)
+        st = conv[0]
+        tg = st.targets[0]
+        new = [unparse(e) for e in (tg.elts if isinstance(tg, ast.Tuple) else [tg])]
+        orig = [unparse(a) for a in st.value.args]
+        if len(new) != len(orig):
+            raise AnalysisError("%s: converted spaces are not unpacked one to one" % qn)
+        bad = []
+        for n in ast.walk(fn):
+            if isinstance(n, ast.Attribute) and n.attr in REPRESENTATION_DEPENDENT and unparse(n.value) in orig and unparse(n.value) not in new and n.lineno > st.lineno:
+                bad.append((n.lineno, unparse(n)))
+        r.check(not bad, qn, rel, qn, bad[0][0] if bad else fn.lineno, "reads of the unconverted spaces in %s" % qn,
+                "after the conversion `%s` the function still reads %s: for a coarse-grid space paired with a barycentric one these belong to different grids / representations than the converted `%s`" % (
+                    unparse(st)[:70], ", ".join("`%s` (line %d)" % (t, l) for l, t in bad[:4]), ", ".join(new)))
 
 
 def _builder_chains(fn):
